@@ -331,8 +331,27 @@ def nontrivial(case):
     return bool(case["faults"]) or case["upload"] or not case["pair"].startswith("valid") or case["pio"] != "present" or bool(SCRIPTS[case["script"]][1])
 
 
+def cross_pairs():
+    """every registered board paired with each platform it is *not* registered for (a board listed under both platforms belongs to neither
+    'exactly'): all of them are mismatched pairs"""
+    from Reduino.toolchain import pio
+
+    sets = {"atmelavr": pio.SUPPORTED_ATMELAVR_BOARDS, "atmelmegaavr": pio.SUPPORTED_ATMELMEGAAVR_BOARDS}
+    out = []
+    for plat in sorted(sets):
+        for other in sorted(sets):
+            if other == plat:
+                continue
+            for board in sorted(sets[other]):
+                out.append((plat, board))
+        for board in sorted(sets[plat]):
+            if any(board in sets[o] for o in sets if o != plat):
+                out.append((plat, board))
+    return sorted(set(out))
+
+
 def plan(tier):
-    units = [(f"enum-{i}", {"part": i, "parts": 8}) for i in range(8)]
+    units = [(f"enum-{i}", {"part": i, "parts": 8}) for i in range(8)] + [(f"cross-{i}", {"part": i, "parts": 2}) for i in range(2)]
     n = 100 if tier == "quick" else 3000
     units += [(f"random-{i}", {"n": n}) for i in range(8)]
     return units
@@ -346,6 +365,22 @@ def all_cases():
 
 def run_shard(name, seed, tier, **kw):
     r = Result()
+    if name.startswith("cross"):
+        for i, (plat, board) in enumerate(cross_pairs()):
+            if i % kw["parts"] != kw["part"]:
+                continue
+            key = f"mismatch:{plat}:{board}"
+            PAIRS[key] = (plat, board)
+            for upload in (False, True):
+                case = {"script": "led", "pair": key, "upload": upload, "pio": "present", "faults": [], "port": "COM3", "rc": 1, "pair_value": [plat, board]}
+                fails, rec = model_and_compare(case)
+                r.evaluations += 1
+                r.nontrivial_enum += 1
+                r.failures.extend(fails[:1])
+            if i % 100 == kw["part"]:
+                r.samples.append(case)
+        r.exhaustive = True
+        return r
     if name.startswith("enum"):
         for i, case in enumerate(all_cases()):
             if i % kw["parts"] != kw["part"]:
@@ -394,4 +429,6 @@ def run_shard(name, seed, tier, **kw):
 
 
 def replay(case):
+    if case.get("pair_value"):
+        PAIRS[case["pair"]] = tuple(case["pair_value"])
     return model_and_compare(case)[0]
